@@ -168,6 +168,12 @@ func runSync(name string, args []string, out, errOut io.Writer) error {
 	if err := applyRemovals(actions, !config.force, out); err != nil {
 		return err
 	}
+	pendingRemovals := map[string]struct{}{}
+	if !config.force {
+		for _, action := range actions {
+			pendingRemovals[action.Shard] = struct{}{}
+		}
+	}
 
 	if err := indexRepositories(repositories, gitindex.Options{
 		BuildOptions:       config.buildOptions,
@@ -177,7 +183,7 @@ func runSync(name string, args []string, out, errOut io.Writer) error {
 		Submodules:         config.submodules,
 		Incremental:        true,
 		DryRun:             !config.force,
-	}, out); err != nil {
+	}, pendingRemovals, out); err != nil {
 		return err
 	}
 	if !config.force {
